@@ -81,6 +81,12 @@ def run(res, ctx):
             if d is not None:
                 corr.append((r, d))
         ia, ib = x["impl"], y["impl"]
+        if ia["status"] == "ok" and ib["status"] == "err" and ia["secs"][0]["stop"][0] == 0:
+            # the only difference between the inputs is the inserted split row(s): an input that is
+            # read and accepted without them and refused as unreadable with them is not value-neutral
+            res.violation("failing-input", "history accepted, but the input is refused after inserting a %s-for-%s split row: %s" % (ratio[0], ratio[1], str(ib.get("msg") or ib.get("error") or "")[:200]),
+                          {"input_original": x["hc"], "input_with_split": y["hc"], "position": k})
+            continue
         if ia["status"] != "ok" or ib["status"] != "ok":
             st["skipped-status"] += 1
             continue
